@@ -46,8 +46,13 @@ type cas struct {
 	Prop string   `json:"prop"`
 }
 
-// j renders model characters; "E" stands for a multi-byte character.
-func j(ss []string) string { return strings.ReplaceAll(strings.Join(ss, ""), "E", "é") }
+// j renders model characters; "E" stands for a multi-byte character: U+00E9, and in turn the characters that Unicode
+// calls white space but RFC 7950 does not (an unquoted token ends only at space, tab, CR, LF, a quote, ";", "{", "}"):
+// U+0085, U+00A0, U+2028, U+3000 are ordinary characters of a YANG text.
+var mbChar = "é"
+var mbChars = []string{"é", "\u0085", "\u00a0", "\u2028", "\u3000"}
+
+func j(ss []string) string { return strings.ReplaceAll(strings.Join(ss, ""), "E", mbChar) }
 
 func classify(kind byte, body []byte) string {
 	if kind != 'A' {
@@ -108,7 +113,24 @@ func exec(kind byte, body []byte) *core.Verdict {
 	if err := json.Unmarshal(body, &c); err != nil {
 		return &core.Verdict{Infra: "case: " + err.Error()}
 	}
-	return judge(&c)
+	hasE := false
+	for _, ch := range c.Text {
+		hasE = hasE || ch == "E"
+	}
+	v := judge(&c)
+	if hasE && v.OK && v.Infra == "" {
+		v.N = 1
+		for _, m := range mbChars[1:] {
+			mbChar = m
+			v2 := judge(&c)
+			mbChar = mbChars[0]
+			if !v2.OK || v2.Infra != "" {
+				return v2
+			}
+			v.N++
+		}
+	}
+	return v
 }
 
 func judge(c *cas) *core.Verdict {
@@ -426,9 +448,9 @@ func gen(body []byte) *core.Verdict {
 
 func cfgs(tier string) []string {
 	if tier == "thorough" {
-		return []string{"raw5", "dq1_6", "dq2_6", "dq3_6", "pat_6", "patblk_5", "cmt_6", "sq_6", "mb_5", "wide_3", "tok5"}
+		return []string{"raw5", "dq1_6", "dq2_6", "dq3_6", "pat_6", "patblk_5", "cmt_6", "sq_6", "cmttab_6", "sqtab_6", "mb_5", "wide_3", "tok5"}
 	}
-	return []string{"raw4", "dq1_5", "dq2_5", "dq3_5", "pat_5", "patblk_5", "cmt_5", "sq_5", "mb_4", "wide_2", "tok5"}
+	return []string{"raw4", "dq1_5", "dq2_5", "dq3_5", "pat_5", "patblk_5", "cmt_5", "sq_5", "cmttab_5", "sqtab_5", "mb_4", "wide_2", "tok5"}
 }
 
 func check(r *core.Run, prop string) {
